@@ -166,14 +166,14 @@ theorem dayFiltered_nth_e (hn : NthERule r) (f : YearFacts r y info) (nmask emas
     cases truthy r.byyearday <;> cases ya <;> cases yb <;> cases mz <;> cases wz <;> rfl
 
 /-- the Easter mask inside `rebuild`, for a rule with a non-empty BYEASTER tuple of supported offsets -/
-theorem eastermaskOf_spec (hn : NthERule r) (el : List Int) (hel : r.byeaster = some el)
+theorem eastermaskOf_spec (htr : truthy r.byeaster = true) (el : List Int) (hel : r.byeaster = some el)
     (hoff : ∀ o ∈ el, -80 ≤ o ∧ o ≤ 250) (y : Int) (hy1 : 1583 ≤ y) (hy2 : y ≤ 4099) :
     ∃ emask, eastermaskOf r y (baseInfo y) = .ok (some emask) ∧ (baseInfo y).yearlen ≤ (emask.length : Int) ∧
       ∀ j : Int, 0 ≤ j → j < (baseInfo y).yearlen →
         Py.getIdx emask j = .ok (if ((baseInfo y).yearordinal + j - Spec.RRule.easterOrd y) ∈ el then 1 else 0) := by
   obtain ⟨mask, h1, h2⟩ := eastermask_spec el y hy1 hy2 hoff
   have hne : ∃ e es, el = e :: es := by
-    have := hn.byeaster; rw [hel] at this
+    have := htr; rw [hel] at this
     cases el with
     | nil => simp [truthy] at this
     | cons e es => exact ⟨e, es, rfl⟩
@@ -211,7 +211,7 @@ theorem rebuild_nth_e (hn : NthERule r) (hf : r.freq = 1) (nwl : List (Int × In
     split
     · rename_i h; rw [h] at this; simp [truthy] at this
     · rfl
-  obtain ⟨emask, e1, e2, e3⟩ := eastermaskOf_spec hn el hel hoff y hy1 hy2
+  obtain ⟨emask, e1, e2, e3⟩ := eastermaskOf_spec hn.byeaster el hel hoff y hy1 hy2
   obtain ⟨nmask, n1, n2, n3⟩ := nwdaymask_monthly (baseInfo_facts r y (by omega) (by omega)) hf nwl hne hnw hok m hm1 hm12
   unfold rebuild
   rw [if_neg (by omega), hw]
